@@ -10,10 +10,12 @@ import (
 	"sort"
 	"strconv"
 	"strings"
+	"time"
 
 	"github.com/mimiro-io/datahub/internal/jobs"
 	"github.com/mimiro-io/datahub/internal/jobs/source"
 	"github.com/mimiro-io/datahub/internal/server"
+	"github.com/mimiro-io/datahub/internal/verifhook"
 )
 
 // Divergence is one answer of the real code the reference does not allow.
@@ -456,6 +458,50 @@ func (s *Session) Step(st *Step) error {
 		if err := s.compact(s.DsReal(st.Ds)); err != nil {
 			return err
 		}
+		s.NonTriv = true
+	case "race":
+		// a writer whose batch lands after the compactor has read the history and before its (first) flush: the
+		// write is performed at the compactor's flush point, in the compactor's goroutine (deterministic gate)
+		// The writer runs in its own goroutine, started when the compactor reaches its (first) flush point; the
+		// compactor waits there up to 100 ms for the write to be acknowledged.  If the hub lets the write through
+		// it has landed inside the compaction; if the hub makes the writer wait (a lock), the compactor goes on
+		// and the write completes afterwards.  Either way it must be acknowledged and nothing may be lost.
+		ents := s.batch(st.B)
+		wdone := make(chan error, 1)
+		started := false
+		verifhook.SetHandler(func(id, arg string) {
+			if id == "compact.flush" && !started {
+				started = true
+				go func() { wdone <- s.Ad.Store(s, s.DsReal(st.Ds), ents) }()
+				select {
+				case err := <-wdone:
+					wdone <- err
+				case <-time.After(100 * time.Millisecond):
+				}
+			}
+		})
+		cerr := s.compact(s.DsReal(st.Ds))
+		verifhook.SetHandler(nil)
+		if cerr != nil {
+			return cerr
+		}
+		if !started {
+			return fmt.Errorf("race: the compactor never reached its flush point")
+		}
+		select {
+		case werr := <-wdone:
+			if werr != nil {
+				return werr
+			}
+		case <-time.After(20 * time.Second):
+			return fmt.Errorf("race: the write was not acknowledged within 20 s after the compaction ended")
+		}
+		s.learn(st.B, ents)
+		var at int64
+		if len(ents) > 0 {
+			at = int64(ents[0].Recorded)
+		}
+		s.tick(1, at)
 		s.NonTriv = true
 	case "dup":
 		if err := s.injectDup(st); err != nil {
